@@ -8,7 +8,7 @@ cmd=$(grep -ho 'go test[^`]*' $d/notes.txt | head -1)
 pkg=$(echo "$cmd" | grep -o '\./[a-z/]*' | tail -1)
 run=$(echo "$cmd" | grep -o '\-run [A-Za-z0-9_]*' | cut -d' ' -f2)
 git -C /repo worktree add -q --detach $wt HEAD || exit 2
-cp $d/demo_test.go.txt $wt/$pkg/zz_seeded_demo_test.go
+cp $d/demo_test.go $wt/$pkg/zz_seeded_demo_test.go
 cd $wt
 clean=$(timeout 300 go test -vet=off -count=1 -timeout 200s -run "$run" $pkg 2>&1 | grep -E '^(ok|FAIL|---)' | tr '\n' ' ')
 git apply $d/patch.diff || { echo "$1: patch does not apply"; cd /; git -C /repo worktree remove --force $wt; exit 1; }
